@@ -136,7 +136,7 @@ PROPS = {
             "assumptions": THREAD_ASSUME},
     "C14": {"kinds": ["STUCK", "FINAL_BUSY", "ID-STARVE"], "stages": thread_stages("C14", [1, 2, 3, 4, 8], 500, [1, 2, 3, 4, 8], 5000), "assumptions": THREAD_ASSUME},
     "C15": {"kinds": ["HB-REUSE", "HB-LIVE", "HB-EXIT"], "stages": thread_stages("C15", [2, 3, 4], 800, [1, 2, 3, 4, 8], 5000), "assumptions": THREAD_ASSUME},
-    "C04": {"kinds": ["PIN-LIST", "PIN-MIN"], "stages": thread_stages("C04", [2, 3, 4], 700, [2, 3, 4, 8], 4000), "assumptions": THREAD_ASSUME},
+    "C04": {"kinds": ["PIN-LIST", "PIN-MIN", "GUARD-UNPINNED"], "stages": thread_stages("C04", [2, 3, 4], 700, [2, 3, 4, 8], 4000), "assumptions": THREAD_ASSUME},
     "C16": {"kinds": ["EPOCH-STEP", "CUR-DECREASED", "MIN-GT-CUR", "QUIESCENT-LIST", "QUIESCENT-MIN"],
             "stages": thread_stages("C16", [2, 3, 4], 700, [2, 3, 4, 8], 4000), "assumptions": THREAD_ASSUME},
     "C17": {"kinds": ["LIST-OWNER", "LIST-ORDER", "LIST-PREV", "LIST-STABLE", "GUARD-EPOCH", "GUARD-MOVE", "CRASH-UAF", "CRASH"],
